@@ -1791,7 +1791,7 @@ func archByPaths(r *Run, w *World, ga *ssa.Function, compat map[string]string, s
 			}
 		}
 	})
-	if len(lowers) == 0 || len(rts) == 0 {
+	if len(lowers) == 0 || len(rts) == 0 || ga.Signature.Results().Len() != 3 {
 		return false
 	}
 	type outcome struct {
